@@ -3,7 +3,7 @@ import SdnsVerif.Model.AutoTA
 import SdnsVerif.Gen.C09
 /-! Line protocol for the `autota` ops of C09 (see harness/c09/main.go). -/
 namespace Driver.C09
-open SdnsVerif.Model SdnsVerif.Model.AutoTA
+open SdnsVerif.Model SdnsVerif.Model.AutoTA SdnsVerif.Model.Util
 
 structure State where
   cfg : List Key := []
@@ -181,6 +181,28 @@ def step (st : State) (w : List String) : State × String :=
       let st' := { st with sys := AutoTA.step params st.cfg st.sys (.tick dt) }
       (st', obs st'.sys)
     | none => (st, "bad-op")
+  | ["autota", "l3", wd, route, cd] =>
+    -- the consumer side over a scripted signed hierarchy: the trust set is what the model's
+    -- AutoTA / startupKeys leave with one configured anchor and the given tombstone store
+    let k0 : Key := mkKey 1 257 1000 0
+    let tomb : Option (FileC (List Nat)) :=
+      if wd == "none" then some .absent
+      else if wd == "corrupt" || wd == "start-corrupt" then some .corrupt
+      else if wd == "zero" || wd == "start-zero" then some .empty
+      else if wd == "unreadable" then some .absent
+      else none
+    match tomb, parseBool cd with
+    | some t, some cdb =>
+      let d : Disk := { tomb := t }
+      let live :=
+        if wd.startsWith "start-" then startupKeys [k0] d
+        else (autoTA params [k0] d [k0] (some { keys := [k0], signers := [k0] })
+                { tombRead := wd == "unreadable" } 0).live
+      let secure := route != "insecure"
+      (st, match serve live cdb secure with
+        | .answered ad => s!"answered ad={boolStr ad}"
+        | .servfail => "servfail")
+    | _, _ => (st, "bad-op")
   | ["autota", "boot"] =>
     if !st.started then (st, "bad-op") else
     let st' := { st with sys := AutoTA.step params st.cfg st.sys .boot }
